@@ -96,3 +96,91 @@ fn c06_reach() {
     s.push(id);
     if s.current() == Some(2) { assert!(false); }
 }
+
+// ---------------------------------------------------------------- registry level: scope walks
+
+use tracing_core::{Collect, __verif as v};
+use tracing_subscriber::registry::{LookupSpan, SpanData};
+
+/// chain g <- p <- c (explicit parents): walking c's scope yields exactly c, p, g (leaf to root); a span's parent
+/// accessor agrees; ancestors stay readable after their own handles are gone
+#[kani::proof]
+#[kani::unwind(5)]
+#[kani::stub(std::rt::thread_cleanup, noop)]
+#[kani::stub(core::fmt::write, fmt_write_stub)]
+#[kani::stub(std::collections::HashMap::clear, hm_clear)]
+fn c06_scope_leaf_to_root() {
+    crate::stack1!(st, false);
+    let g = crate::c05::root(st, any_level_rank());
+    let p = crate::c05::child(st, &g, any_level_rank());
+    let c = crate::c05::child(st, &p, any_level_rank());
+    // the ancestors' own handles are dropped: they stay alive through their descendants
+    assert!(!st.try_close(g.clone()));
+    assert!(!st.try_close(p.clone()));
+    {
+        let leaf = st.span(&c).unwrap();
+        assert!(leaf.parent().map(|s| s.id()) == Some(p.clone()));
+        let mut it = leaf.scope();
+        assert!(it.next().map(|s| s.id()) == Some(c.clone()));
+        assert!(it.next().map(|s| s.id()) == Some(p.clone()));
+        assert!(it.next().map(|s| s.id()) == Some(g.clone()));
+        assert!(it.next().is_none());
+    }
+    {
+        let mid = st.span(&p).unwrap();
+        let mut it = mid.scope();
+        assert!(it.next().map(|s| s.id()) == Some(p.clone()));
+        assert!(it.next().map(|s| s.id()) == Some(g.clone()));
+        assert!(it.next().is_none());
+        assert!(st.span(&g).unwrap().parent().is_none());
+    }
+}
+
+/// the same chain from the root: g, p, c
+#[kani::proof]
+#[kani::unwind(18)]
+#[kani::stub(std::rt::thread_cleanup, noop)]
+#[kani::stub(core::fmt::write, fmt_write_stub)]
+#[kani::stub(std::collections::HashMap::clear, hm_clear)]
+fn c06_scope_from_root() {
+    crate::stack1!(st, false);
+    let g = crate::c05::root(st, 2);
+    let p = crate::c05::child(st, &g, 3);
+    let c = crate::c05::child(st, &p, 4);
+    {
+        let leaf = st.span(&c).unwrap();
+        let mut it = leaf.scope().from_root();
+        assert!(it.next().map(|s| s.id()) == Some(g.clone()));
+        assert!(it.next().map(|s| s.id()) == Some(p.clone()));
+        assert!(it.next().map(|s| s.id()) == Some(c.clone()));
+        assert!(it.next().is_none());
+    }
+}
+
+/// contextual / explicit / root parent resolution with two threads entered in different spans
+#[kani::proof]
+#[kani::unwind(4)]
+#[kani::stub(std::rt::thread_cleanup, noop)]
+#[kani::stub(core::fmt::write, fmt_write_stub)]
+#[kani::stub(std::collections::HashMap::clear, hm_clear)]
+fn c06_parent_resolution_two_threads() {
+    crate::stack1!(st, true);
+    let a = crate::c05::root(st, 2);
+    let b = crate::c05::root(st, 3);
+    v::set_thread(0);
+    st.enter(&a);
+    v::set_thread(1);
+    st.enter(&b);
+    // each thread's current span is its own
+    assert!(st.current_span().id() == Some(&b));
+    v::set_thread(0);
+    assert!(st.current_span().id() == Some(&a));
+    // a contextual span on thread 0 gets `a`, an explicit parent overrides, an explicit root has none
+    let t: usize = kani::any();
+    kani::assume(t < 2);
+    v::set_thread(t);
+    let x = crate::c05::contextual(st, 4);
+    let want = if t == 0 { a.clone() } else { b.clone() };
+    assert!(st.span_data(&x).unwrap().parent() == Some(&want));
+    kani::cover!(t == 1);
+}
